@@ -139,5 +139,16 @@ pos("scan-setstring-strconv-fast-path","decimal_conv.go","	if f, _, err := z.Par
 C[-1]["edits"].append({"file":"decimal_conv.go","old":"	\"io\"\n	\"strings\"\n","new":"	\"io\"\n	\"strconv\"\n	\"strings\"\n"})
 pos("scan-readbyte-accepts-wide-runes","stdlib.go","	ch, size, err := r.ReadRune()\n	if size != 1 && err == nil {","	ch, size, err := r.ReadRune()\n	if size == 0 && err == nil {","SCANSHAPE","byte-reader",quick=True,note="seed r4-C12A")
 neg("scan-readbyte-range-test","stdlib.go","	ch, size, err := r.ReadRune()\n	if size != 1 && err == nil {","	ch, _, err := r.ReadRune()\n	if ch >= 0x80 && err == nil {",["SCANSHAPE"])
+pos("wordsum-addmul-carry-folded-into-addend","dec_arith.go","		hi, z0 := mulAddWWW_g(x[i], y, z[i])\n		lo, cc := bits.Add(uint(z0), uint(c), 0)\n		c, z[i] = div10W_g(hi+Word(cc), Word(lo))","		hi, lo := mulAddWWW_g(x[i], y, z[i]+c)\n		c, z[i] = div10W_g(hi, lo)","WORDSUM","addMul10VVW_g",quick=True,note="seed r3-C07B",config="purego")
+neg("wordsum-add10vw-operands-swapped","dec_arith.go","		s := x[i] + c\n","		s := c + x[i]\n",["WORDSUM"])
+# rules added after the fifth round
+pos("divcore-mul10ww-g-high-zero-shortcut","dec_arith.go","	hi, lo := bits.Mul(uint(x), uint(y))\n	return div10W_g(Word(hi), Word(lo))","	hi, lo := bits.Mul(uint(x), uint(y))\n	if hi == 0 {\n		return 0, Word(lo)\n	}\n	return div10W_g(Word(hi), Word(lo))","DIVCORE","mul10WW_g",quick=True,note="seed r3-C07C")
+pos("asm-divcore-mul10ww-high-zero-shortcut","dec_arith_amd64.s","	MOVQ x+0(FP), AX\n	MULQ y+8(FP)\n","	MOVQ x+0(FP), AX\n	MULQ y+8(FP)\n	TESTQ DX, DX\n	JNE R0a\n	MOVQ DX, z1+16(FP)\n	MOVQ AX, z0+24(FP)\n	RET\nR0a:\n","ASM","divcore/·mul10WW",quick=True,note="seed r5-C07A")
+pos("fill-add10vw-g-naked-return-after-copy","dec_arith.go","			copy(z[i+1:], x[i+1:])\n			return 0\n","			copy(z[i+1:], x[i+1:])\n			return\n","FILL","add10VW_g/copy-rest",quick=True,note="seed r5-C07B")
+pos("shiftw-pow2-count-may-equal-width","decimal_conv.go","	if n < _W {","	if n <= _W {","SHIFTW","pow2",quick=True,note="seed r5-C15B")
+neg("shiftw-pow2-guard-rewritten","decimal_conv.go","	if n < _W {","	if n <= _W-1 {",["SHIFTW"])
+pos("carry-decaddat-one-word-window","dec.go","				add10VW(z[j:], z[j:], c)","				add10VW(z[j:j+1], z[j:], c)","CARRY","decAddAt/add10VW/window",quick=True,note="seed r5-C05B")
+pos("sibling-karatsubasub-half-window","dec.go","		sub10VW(z[n:n+n>>1], z[n:], c)","		sub10VW(z[n:n+n>>2], z[n:], c)","SIBLING","decKaratsubaAdd~decKaratsubaSub",quick=True,note="seed r5-C05C")
+neg("sibling-karatsuba-windows-rewritten","dec.go","		sub10VW(z[n:n+n>>1], z[n:], c)","		sub10VW(z[n:n>>1+n], z[n:], c)",["SIBLING"])
 json.dump(C,open("seedrules.json","w"),indent=1,ensure_ascii=False)
 print(len(C),"controls")
